@@ -28,6 +28,9 @@ pub enum Action {
 	/// Deliveries on link from→to are paused until released.
 	HoldLink(usize, usize),
 	ReleaseLink(usize, usize),
+	/// The node's ChannelManager is not written any more until released ("however far the manager lags").
+	HoldManager(usize),
+	ReleaseManager(usize),
 	Mine,
 	/// Mine k empty blocks and tell every node.
 	MineEmpty(u32),
@@ -57,6 +60,8 @@ pub fn encode_action(a: &Action) -> String {
 		Action::ReleaseEvents(n) => format!("relev:{}", n),
 		Action::HoldLink(f, t) => format!("holdlk:{}>{}", f, t),
 		Action::ReleaseLink(f, t) => format!("rellk:{}>{}", f, t),
+		Action::HoldManager(n) => format!("holdmgr:{}", n),
+		Action::ReleaseManager(n) => format!("relmgr:{}", n),
 		Action::Mine => "mine".to_string(),
 		Action::MineEmpty(k) => format!("mineempty:{}", k),
 		Action::Sweep(n) => format!("sweep:{}", n),
@@ -109,6 +114,8 @@ pub fn decode_action(s: &str) -> Option<Action> {
 			let v = nums('>');
 			Action::ReleaseLink(*v.get(0)? as usize, *v.get(1)? as usize)
 		},
+		"holdmgr" => Action::HoldManager(rest.parse().ok()?),
+		"relmgr" => Action::ReleaseManager(rest.parse().ok()?),
 		"mine" => Action::Mine,
 		"mineempty" => Action::MineEmpty(rest.parse().ok()?),
 		"sweep" => Action::Sweep(rest.parse().ok()?),
@@ -172,6 +179,12 @@ pub struct Deviations {
 	/// sticky delays: hold a node's event processing / a link's deliveries until released
 	pub hold_events: Option<u32>,
 	pub hold_link: Option<u32>,
+	pub hold_manager: Option<u32>,
+	/// restrict HoldLink to this directed link / crash-inside to block connections of the settling phase
+	pub hold_link_only: Option<(usize, usize)>,
+	pub crash_inside_settle_only: bool,
+	/// cost of releasing a hold earlier than the default (last possible) moment; None = never early
+	pub early_release: Option<u32>,
 }
 
 impl Default for Deviations {
@@ -188,6 +201,10 @@ impl Default for Deviations {
 			tamper_raa: None,
 			hold_events: None,
 			hold_link: None,
+			hold_manager: None,
+			hold_link_only: None,
+			crash_inside_settle_only: false,
+			early_release: Some(0),
 		}
 	}
 }
@@ -224,6 +241,12 @@ pub struct WorldSys {
 	pub held_links: std::collections::BTreeSet<(usize, usize)>,
 	pub holds_done: u32,
 	pub max_holds: u32,
+	pub held_manager: Vec<bool>,
+	/// scenario option: nodes listed in `held_events` at start keep their events unhandled until the
+	/// on-chain settling is over (the user is slow to call process_pending_events)
+	pub events_held_through_settle: bool,
+	pub link_holds_done: u32,
+	pub mgr_holds_done: u32,
 	pub crash_nodes: Vec<usize>,
 	/// mine to resolution in the settling phase when a channel was closed on chain
 	pub settle_on_chain: bool,
@@ -265,6 +288,10 @@ impl WorldSys {
 			held_links: Default::default(),
 			holds_done: 0,
 			max_holds: 1,
+			held_manager: vec![false; n],
+			events_held_through_settle: false,
+			link_holds_done: 0,
+			mgr_holds_done: 0,
 			crash_nodes: Vec::new(),
 			probes: Vec::new(),
 		}
@@ -312,13 +339,14 @@ impl WorldSys {
 		}
 		// releases come last in the default order (maximal delay); earlier release is a zero-cost alternative
 		for i in 0..n {
-			if self.held_events[i] {
+			if self.held_events[i] && !self.events_held_through_settle {
 				v.push(Action::ReleaseEvents(i));
 			}
 		}
 		for (f, t) in self.held_links.iter() {
 			v.push(Action::ReleaseLink(*f, *t));
 		}
+
 		if v.is_empty() && self.finished && self.settle_on_chain {
 			// on-chain settling: confirm whatever is in the mempool, bury it by the anti-reorg depth, let
 			// every timelock expire once, and repeat until nothing is left to confirm
@@ -338,6 +366,24 @@ impl WorldSys {
 				v.push(Action::MineEmpty(self.jump_left.max(101)));
 			}
 		}
+		// a held manager stays held through the on-chain settling phase (the lag is arbitrary); it is
+		// written only when nothing else is left to do
+		if v.is_empty() && self.finished && self.events_held_through_settle {
+			for i in 0..n {
+				if self.held_events[i] {
+					v.push(Action::ReleaseEvents(i));
+					break;
+				}
+			}
+		}
+		if v.is_empty() && self.finished {
+			for i in 0..n {
+				if self.held_manager[i] {
+					v.push(Action::ReleaseManager(i));
+					break;
+				}
+			}
+		}
 		v
 	}
 
@@ -347,7 +393,7 @@ impl WorldSys {
 		}
 		match a {
 			Action::Op(_) => self.dev.early_op.unwrap_or(u32::MAX),
-			Action::ReleaseEvents(_) | Action::ReleaseLink(..) => 0,
+			Action::ReleaseEvents(_) | Action::ReleaseLink(..) | Action::ReleaseManager(_) => self.dev.early_release.unwrap_or(u32::MAX),
 			Action::Complete(..) => self.dev.complete_reorder.unwrap_or(u32::MAX),
 			_ => self.dev.reorder.unwrap_or(u32::MAX),
 		}
@@ -524,8 +570,20 @@ impl WorldSys {
 				self.held_events[*n] = false;
 			},
 			Action::HoldLink(f, t) => {
-				self.holds_done += 1;
+				self.link_holds_done += 1;
 				self.held_links.insert((*f, *t));
+			},
+			Action::HoldManager(n) => {
+				self.mgr_holds_done += 1;
+				self.held_manager[*n] = true;
+				self.w.manager_write_held[*n] = true;
+			},
+			Action::ReleaseManager(n) => {
+				self.held_manager[*n] = false;
+				self.w.manager_write_held[*n] = false;
+				self.w.nodes[*n].write_manager();
+				self.w.mgr_known_ids[*n] = self.w.live_ids[*n].clone();
+				self.w.mgr_known_open[*n] = self.w.nodes[*n].cm.list_channels().iter().map(|c| c.channel_id).collect();
 			},
 			Action::ReleaseLink(f, t) => {
 				self.held_links.remove(&(*f, *t));
@@ -653,8 +711,18 @@ impl System for WorldSys {
 			}
 		}
 		if self.finished {
-			// settling phase: defaults only
+			// settling phase: defaults only, except that a node may still crash inside a block connection
 			out.truncate(1);
+			if let (Some(c), true) = (self.dev.crash_inside, self.crashes_done < self.max_crashes) {
+				if let Some((Action::Mine, _)) | Some((Action::MineEmpty(_), _)) = out.first() {
+					let kmax = if matches!(out.first(), Some((Action::MineEmpty(_), _))) { 8 } else { 2 };
+					for &t in self.crash_nodes.iter() {
+						for k in 0..kmax {
+							out.push((Action::CrashInside(t, k, true), c));
+						}
+					}
+				}
+			}
 			return out;
 		}
 		let n = self.w.nodes.len();
@@ -676,18 +744,29 @@ impl System for WorldSys {
 				}
 			}
 		}
-		if self.holds_done < self.max_holds {
-			if let Some(c) = self.dev.hold_events {
+		{
+			if let (Some(c), true) = (self.dev.hold_events, self.holds_done < self.max_holds) {
 				for i in 0..n {
 					if !self.held_events[i] {
 						out.push((Action::HoldEvents(i), c));
 					}
 				}
 			}
-			if let Some(c) = self.dev.hold_link {
+			if let (Some(c), true) = (self.dev.hold_manager, self.mgr_holds_done < 1) {
+				for &i in self.crash_nodes.iter() {
+					if !self.held_manager[i] {
+						out.push((Action::HoldManager(i), c));
+					}
+				}
+			}
+			if let (Some(c), true) = (self.dev.hold_link, self.link_holds_done < 1) {
 				for a in 0..n {
 					for b in 0..n {
-						if a != b && self.w.is_connected(a, b) && !self.held_links.contains(&(a, b)) {
+						if a != b
+							&& self.w.is_connected(a, b)
+							&& !self.held_links.contains(&(a, b))
+							&& self.dev.hold_link_only.map(|l| l == (a, b)).unwrap_or(true)
+						{
 							out.push((Action::HoldLink(a, b), c));
 						}
 					}
@@ -716,7 +795,7 @@ impl System for WorldSys {
 					}
 				}
 			}
-			if let Some(c) = self.dev.crash_inside {
+			if let (Some(c), false) = (self.dev.crash_inside, self.dev.crash_inside_settle_only) {
 				let target = match out.first().map(|x| &x.0) {
 					Some(Action::Deliver(_, t)) => Some(*t),
 					Some(Action::Events(t)) | Some(Action::Forward(t)) | Some(Action::Complete(t, _, _)) => Some(*t),
